@@ -114,6 +114,8 @@ def run(ctx, focus='C11'):
                 ops.append(' '.join(['of.text', str(g['max_level']), str(g['ngram']), enc(text_of('IP.level', rule_enc)),
                                      enc(text_of('CP.level', rule_enc)), enc(text_of('LN.level', 'ascii'))]))
                 exp.append(f"ip={want_ip} ln={want_ln} cp={want_cp}")
+                ops.append('of.alpha ' + enc(text_of('alphabet.txt', rule_enc)))
+                exp.append('a=' + ','.join(enc(x) for x in g['alphabet']))
         except (OSError, UnicodeError, KeyError):
             pass
         # the guesser's view: enumerate levels while they stay small
